@@ -131,7 +131,7 @@ impl HelloCase {
             s.push_str("<!-- a -->");
         }
         let caps = if self.no_caps { String::new() } else { caps };
-        let caps = if self.caps2 {
+        let caps = if self.caps2 && !self.no_caps {
             format!("{caps}<{p}capabilities><{p}capability>{}</{p}capability></{p}capabilities>", mt::CAP_BASE10)
         } else {
             caps
@@ -187,7 +187,7 @@ impl HelloCase {
             && self.foreign == 0
             // anything but a comment after the root element: not a well-formed document
             && matches!(self.after, 0 | 6)
-            && !self.caps2;
+            && !(self.caps2 && !self.no_caps);
         // a capability text with a reference that cannot be resolved is not a well-formed hello
         let uris_ok = self
             .extra
